@@ -1,13 +1,26 @@
 """Enumerators for the bounded API-level runs (DESIGN Appendix D, row `grammars_small`).
 
-* `exprs(n, ctx, calls)`      every expression with exactly `n` nodes that the concrete syntax allows in
+* `exprs(n, ctx, calls, leaves)` every expression with exactly `n` nodes that the concrete syntax allows in
                               context `ctx` ('expre' > 'option' > 'element' > 'term' > 'atom')
-* `small_grammars(...)`       grammar descriptions (see bounded/specpeg.py), exhaustive up to the bound,
-                              structurally deduplicated, canonical up to renaming of names / tokens
+* `single_rule`, `two_rule`, `small_grammars`  grammar descriptions (see bounded/specpeg.py), exhaustive up to
+                              the bound, structurally deduplicated, canonical up to renaming of names / tokens
 * `inputs(alphabet, maxlen)`  all strings
 * `CUT_GRAMMARS`              curated C05 list: `~` at every position of options, optionals, closure and
                               join bodies (first and later iterations), nested choices in groups, rule
-                              bodies -- each with inputs that fail right after each cut
+                              bodies -- used with ALL inputs over {a,b,c} up to a length bound, which contain
+                              the inputs that fail right after each cut
+
+Measured sizes (tokens 'a' 'b', pattern /a+/, names x y; every node kind of specpeg occurs from 3 nodes on):
+
+    nodes                         1     2      3       4        5
+    exprs, full leaves           10   140   1860   31680
+      canonical                   9   108   1404   22458
+    exprs, core leaves            5    70    820   11560   171010     (core = 'a' 'b' /a+/ () ~)
+      canonical                   4    48    546    7256   102974
+
+    single_rule(3) 1521   single_rule(4) 23979   single_rule(4,'core',exact) 7256
+    two_rule(2,2) 3114    two_rule(3,0,'core',exact,callees=CALLEES) 3588    two_rule(3,2,'full','core') 24992
+    inputs('ab ',4) 121   inputs('ab ',3) 40   IN_MID 23   CUT_GRAMMARS 109   inputs('abc',6) 1093  ('abc',8) 9841
 """
 from __future__ import annotations
 
@@ -48,10 +61,13 @@ def _compositions(total, parts, minimum=1):
 CORE_LEAVES = frozenset([('tok', 'a'), ('tok', 'b'), ('pat', PATTERN), ('void',), ('cut',)])
 
 
+TOKEN_LEAVES = frozenset([('tok', 'a'), ('tok', 'b')])
+
+
 @lru_cache(maxsize=None)
 def exprs(n, ctx='expre', calls=(), leaves='full'):
     """all expressions with exactly n nodes, well-formed in context ctx; `calls`: callable rule names;
-    leaves: 'full' or 'core' (CORE_LEAVES)"""
+    leaves: 'full', 'core' (CORE_LEAVES), 'tokens' (TOKEN_LEAVES) or a frozenset of leaf expressions"""
     return tuple(_exprs(n, ctx, calls, leaves))
 
 
@@ -60,7 +76,10 @@ def _exprs(n, ctx, calls, leaves):
         return globals()['exprs'](n, ctx, calls, leaves)
 
     def keep(ls):
-        return [x for x in ls if leaves == 'full' or x in CORE_LEAVES]
+        if leaves == 'full':
+            return list(ls)
+        allowed = CORE_LEAVES if leaves == 'core' else TOKEN_LEAVES if leaves == 'tokens' else leaves
+        return [x for x in ls if x in allowed]
 
     out = []
     if n < 1:
@@ -235,6 +254,28 @@ def two_rule(start_nodes, callee_nodes, leaves='full', callee_leaves='full', nam
                     d = (('start', body), (callee, cbody))
                     if canonical(d):
                         out.append(d)
+    return out
+
+
+_NAMING = {'named', 'namedlist', 'override', 'overridelist'}
+_SCOPES = {'opt', 'closure', 'pclosure', 'choice', 'join', 'pjoin', 'gather', 'pgather'}
+
+
+def named_in_scopes(nodes=5, wide=False):
+    """`start = e`, e of exactly `nodes` nodes over the tokens 'a' 'b' only, with at least one name / override
+    and at least one optional / closure / choice (the smallest grammars in which a sequence pre-defines a name
+    that an inner scope may leave unmatched have 5 nodes); wide=False leaves out joins, lookaheads, skip-to and
+    non-capturing groups"""
+    out = []
+    for e in exprs(nodes, 'expre', (), 'tokens'):
+        k = S.kinds_of(e)
+        if not (k & _NAMING and k & _SCOPES):
+            continue
+        if not wide and k & {'la', 'nla', 'skipto', 'skipgroup', 'join', 'pjoin', 'gather', 'pgather'}:
+            continue
+        d = (('start', e),)
+        if canonical(d):
+            out.append(d)
     return out
 
 
